@@ -49,6 +49,11 @@ async fn is_block_dev(file: &File) -> Result<bool, std::io::Error> {
     use std::os::linux::fs::MetadataExt;
     #[cfg(target_os = "macos")]
     use std::os::macos::fs::MetadataExt;
+    #[cfg(oll3_bita_verif)]
+    if std::env::var_os("BITA_VERIF_TREAT_OUTPUT_AS_BLOCK_DEV").is_some() {
+        // Verification hook: exercise the block device path on a regular file.
+        return Ok(true);
+    }
     let meta = file.metadata().await?;
     if meta.st_mode() & 0x6000 == 0x6000 {
         Ok(true)
